@@ -291,6 +291,10 @@ CATALOGUE = [
       "            expr = _clamp_cos(expr)\n", "lower-clamp",
       also=[(CPYX, "def _calculate_angular_distance(",
              "cdef inline FIELD_t _clamp_cos(FIELD_t c) noexcept nogil:\n    if c > 1:\n        return 1\n    return c\n\n\ndef _calculate_angular_distance(")]),
+    B("c17-model-III-no-degree", "C17", CPYX,
+      "                              cond_len_c2, cond_deg_corr)",
+      "                              cond_len_c2, cond_deg_true)",
+      "_randomly_rewire_geomodel_III/condition/deg"),
     # ---------------- C10 / C15 / C16
     B("c10-float-index", "C10", "src/pyunicorn/funcnet/coupling_analysis.py",
       "lagfuncs[range(N), range(N), 0] = 0.", "lagfuncs[range(N), range(N), 0.] = 0.",
